@@ -54,6 +54,7 @@ ReadBack(r) ==
        \cup If(r.maps = 1 /\ \E k \in 1..Len(r.atoms) : r.back.atoms[k].n # r.atoms[k].n, "r-number")
        \cup If(ObsBonds(r.back) # ObsBonds(r), "r-bonds")
        \cup If(~CtSame(r.ct, r.back.ct), "r-cistrans")
+       \cup If(~CtSame(r.ax, r.back.ax), "r-axis")      \* allene / cumulene marks: the same algebra (Stereo.tla)
 
 Verdict(r, s0) ==
   LET s == Finish(s0) IN
